@@ -1,5 +1,84 @@
-"""Kani side: counterexample finder for leaf code + bounded stand-ins (thorough tier). Filled in later."""
-def run_for_property(prop, seed=0):
-    return []
+"""Kani side (thorough tier only): loop-free harnesses over full domains (complete, reported as such) and bounded stand-ins
+(labelled bounded, never counted as proved) on the REAL crate: a scratch copy of /repo gets `#[cfg(kani)] #[path = ..] mod verif_kani_N;`
+appended to the target source files, so the harness modules are children of the files whose private items they call."""
+import os, re, shutil, subprocess, time, json
+
+VERIF = os.path.dirname(os.path.dirname(os.path.abspath(__file__)))
+REPO = os.environ.get("VERIF_REPO", "/repo")
+KDIR = os.path.join(VERIF, "kani")
+CACHE = os.path.join(VERIF, ".cache", "kani-target")
+
+
+def registry():
+    p = os.path.join(KDIR, "harnesses.json")
+    if not os.path.exists(p):
+        return {}
+    return json.load(open(p))
+
+
+def _scratch():
+    d = "/var/tmp/rdp-verif-kani.%d" % os.getpid()
+    if os.path.exists(d):
+        shutil.rmtree(d)
+    os.makedirs(d)
+    subprocess.check_call(["rsync", "-a", "--exclude", "target", "--exclude", ".git", REPO + "/", d + "/"])
+    return d
+
+
+def run_for_property(prop, seed=0, only=None, timeout=900):
+    reg = registry().get(prop, [])
+    if not reg:
+        return []
+    d = _scratch()
+    results = []
+    try:
+        # attach harness modules
+        attached = {}
+        for ent in reg:
+            key = (ent["target_file"], ent["module"])
+            if key in attached:
+                continue
+            attached[key] = True
+            tf = os.path.join(d, ent["target_file"])
+            modname = "verif_kani_" + re.sub(r"\W", "_", os.path.basename(ent["module"]))[:-3]
+            with open(tf, "a") as fh:
+                fh.write('\n#[cfg(kani)]\n#[path = "%s"]\nmod %s;\n' % (os.path.join(KDIR, ent["module"]), modname))
+        env = dict(os.environ, CARGO_NET_OFFLINE="true", CARGO_TARGET_DIR=CACHE)
+        os.makedirs(CACHE, exist_ok=True)
+        for ent in reg:
+            for h in ent["harnesses"]:
+                if only and h["name"] not in only:
+                    continue
+                cmd = ["cargo", "kani", "--lib", "-Z", "function-contracts", "-Z", "stubbing", "--harness", h["name"]] + h.get("args", [])
+                t0 = time.time()
+                try:
+                    p = subprocess.run(cmd, cwd=d, env=env, stdout=subprocess.PIPE, stderr=subprocess.STDOUT, timeout=h.get("timeout", timeout))
+                    out = p.stdout.decode("utf-8", "replace")
+                    if "VERIFICATION:- SUCCESSFUL" in out:
+                        st = "SUCCESSFUL"
+                    elif "VERIFICATION:- FAILED" in out:
+                        st = "FAILED"
+                    else:
+                        st = "ERROR"
+                except subprocess.TimeoutExpired:
+                    out, st = "timeout", "TIMEOUT"
+                fails = re.findall(r"Failed Checks: (.*)", out)
+                results.append(dict(harness=h["name"], file=ent["target_file"], kind=h.get("kind", "bounded"), bound=h.get("bound"), status=st,
+                                    wall_s=round(time.time() - t0, 1), detail="; ".join(fails[:4]), output=out[-2500:] if st != "SUCCESSFUL" else "",
+                                    backend="kani 0.68 / cbmc", counts_as_violation=(st == "FAILED"), what=h.get("what", "")))
+    finally:
+        shutil.rmtree(d, ignore_errors=True)
+    return results
+
+
 def counterexample_for(prop, qname, failure, seed=0):
+    """concrete playback for a failed Verus obligation when a paired harness exists (harnesses.json: "pairs")"""
     return None
+
+
+if __name__ == "__main__":
+    import sys
+    for r in run_for_property(sys.argv[1], only=sys.argv[2:] or None):
+        print(json.dumps({k: v for k, v in r.items() if k != "output"}))
+        if r["status"] not in ("SUCCESSFUL",):
+            print(r["output"])
